@@ -6,7 +6,7 @@ from typing import Dict, List, Optional, Tuple
 
 from .. import norm, ratform, interval, piecewise
 from ..model import own_nodes, stmt_text, parent, AnalysisError
-from ..util import attr_writes, cfg_of, calls_named, single_defs, write_once_fields, inline_simple_calls
+from ..util import attr_writes, cfg_of, calls_named, single_defs, write_once_fields, inline_simple_calls, package_calls
 from .common import *
 from . import c02, c10, pool
 
@@ -488,7 +488,63 @@ def check_order(ctx, num=8):
     c01.check_running_sites(ctx)
 
 
+def check_tick_method(ctx, num=8):
+    """Container.tick(): one call advances the generator by exactly one tick boundary and counts one elapsed tick, unless the
+    container has already ended (then nothing happens)."""
+    P = ctx.P
+    t = P.fn(CT, "Container.tick")
+    ctx.touch(t)
+    g = cfg_of(t, subst_env=False)
+    ci = P.fn(CT, "Container.__init__")
+    its = [n for n in own_nodes(ci.node) if isinstance(n, ast.Assign) and any(self_attr(x, "_tick_iter") for x in n.targets)]
+    okit = len(its) == 1 and norm.U(its[0].value) == "self._tick_generator()" and len(attr_writes(P, "_tick_iter")) == 1
+    ctx.ob(num, "K6", "a container drives exactly one generator, created once at construction", okit, ci, its[0] if its else ci.node, construct="self._tick_iter = self._tick_generator()",
+           detail=f"{[stmt_text(n) for n in its]}; writers of _tick_iter: {len(attr_writes(P, '_tick_iter'))}")
+    adv = [c for c in own_nodes(t.node) if isinstance(c, ast.Call) and norm.is_name(c.func, "next") and len(c.args) >= 1 and norm.U(c.args[0]) == "self._tick_iter"]
+    others = [(f_, c) for f_, c in package_calls(P, "next") if c.args and norm.U(c.args[0]).endswith("._tick_iter") and not same_fn(f_, t)]
+    ctx.count_min("next(self._tick_iter) in Container.tick", len(adv), 1)
+    for f_, c in others:
+        ctx.ob(num, "K1", "the generator of a container is advanced only by Container.tick()", False, f_, c, detail=f"in {f_.qual}")
+    a = adv[0]
+    ast_ = poolstmt(a)
+    once = len(adv) == 1 and enclosing_for(a, t.node) is None and not any(isinstance(x, ast.While) for x in ancestors_of(a, t.node))
+    # skipped only when the container has ended
+    IN = g.facts(blocked={g.node_of(a).id})
+    ex = IN.get(g.exit.id)
+    skipped_only_ended = ex is None or norm.entails(ex, ("truth", "self._completed", True))
+    ctx.ob(num, "K3", "tick() advances the generator exactly once, and does nothing only for a container that has ended", once and skipped_only_ended, t, a,
+           construct="next(self._tick_iter)", detail=f"single advance, not in a loop: {once}; paths without an advance carry `self._completed`: {skipped_only_ended}")
+    incs = [n for n in own_nodes(t.node) if isinstance(n, ast.AugAssign) and self_attr(n.target, "_ticks_elapsed")]
+    okinc = len(incs) == 1 and isinstance(incs[0].op, ast.Add) and isinstance(incs[0].value, ast.Constant) and incs[0].value.value == 1 and g.control_equivalent(ast_, incs[0])
+    ws = [w for w in attr_writes(P, "_ticks_elapsed") if not same_fn(w.fn, t) and not same_fn(w.fn, ci)]
+    i0 = [n for n in own_nodes(ci.node) if (isinstance(n, ast.Assign) and any(self_attr(x, "_ticks_elapsed") for x in n.targets))
+          or (isinstance(n, ast.AnnAssign) and self_attr(n.target, "_ticks_elapsed") and n.value is not None)]
+    ok0 = len(i0) == 1 and isinstance(i0[0].value, ast.Constant) and i0[0].value.value == 0 and not isinstance(i0[0].value.value, bool)
+    ctx.ob(num, "K3", "the elapsed-tick count of a container starts at 0 and grows by one with every advance of its generator (and only then)", okinc and not ws and ok0, t,
+           incs[0] if incs else t.node, construct="self._ticks_elapsed += 1", detail=f"{[stmt_text(n) for n in incs]}; together with the advance: {okinc}; other writers: {[repr(w) for w in ws]}; starts at 0: {ok0}")
+    te = P.fn(CT, "Container.ticks_elapsed")
+    rs = [r for r in own_nodes(te.node) if isinstance(r, ast.Return)]
+    ctx.ob(num, "K5", "ticks_elapsed() reports that count", len(rs) == 1 and rs[0].value is not None and norm.U(rs[0].value) == "self._ticks_elapsed", te, rs[0] if rs else te.node,
+           detail=f"{[stmt_text(r) for r in rs]}")
+
+
+def ancestors_of(n, stop):
+    out = []
+    p_ = parent(n)
+    while p_ is not None and p_ is not stop:
+        out.append(p_)
+        p_ = parent(p_)
+    return out
+
+
+def poolstmt(n):
+    while not isinstance(n, ast.stmt):
+        n = parent(n)
+    return n
+
+
 def run(ctx):
+    check_tick_method(ctx, 8)
     check_order(ctx, 8)
     check_scaling(ctx, 3)
     sh = check_plan(ctx)
